@@ -4,8 +4,10 @@ from checks.storegen import World, Ent, PLAIN, TYPES
 
 ID = 'C19'
 FLAVOUR = {'quick': 'plain', 'thorough': 'asan'}
-LEAN_MODULES = ['NixModel.Props.C19']
-THEOREMS = ['Nix.C19.validator_sound', 'Nix.C19.validator_sound_conforming', 'Nix.C19.validator_complete', 'Nix.C19.validator_complete_count',
+LEAN_MODULES = ['NixModel.Props.C19', 'NixModel.Props.C19Source', 'NixModel.ValidSource', 'NixModel.Gen.ValidRules']
+THEOREMS = ['Nix.Validate.dataArray_source', 'Nix.Validate.tag_source', 'Nix.Validate.multiTag_source', 'Nix.Validate.property_source', 'Nix.Validate.rangeDimension_source', 'Nix.Validate.sampledDimension_source', 'Nix.Validate.setDimension_source', 'Nix.Validate.feature_source', 'Nix.Validate.entity_source', 'Nix.Validate.named_source', 'Nix.Validate.base_tables',
+            'Nix.Validate.validateArray_is_the_source_table', 'Nix.Validate.validateNamed_is_the_source_table', 'Nix.Validate.validateTag_is_the_source_table', 'Nix.Validate.validateProp_is_the_source_table', 'Nix.Validate.validateRange_is_the_source_table', 'Nix.Validate.validateSampled_is_the_source_table', 'Nix.Validate.validateSet_is_the_source_table', 'Nix.Validate.validateFeature_is_the_source_table',
+            'Nix.C19.validator_sound', 'Nix.C19.validator_sound_conforming', 'Nix.C19.validator_complete', 'Nix.C19.validator_complete_count',
             'Nix.C19.complete_rank', 'Nix.C19.complete_ticks', 'Nix.C19.complete_labels', 'Nix.C19.complete_rows', 'Nix.C19.complete_unsorted',
             'Nix.C19.complete_interval', 'Nix.C19.complete_tag_units', 'Nix.C19.complete_positions', 'Nix.C19.complete_feature_data',
             'Nix.C19.soft_rules_only_warn', 'Nix.C19.soft_breach_is_warned', 'Nix.C19.soft_breach_count', 'Nix.C19.warning_only_for_soft_breach',
